@@ -19,6 +19,14 @@ CHECKS = {
          "Exploration: 20k (thorough 300k) value trees round-tripped through the real printer and reader and compared in value and exactness, composition of the text checked against the shape rules; every 2048th finite binary32 in quick, all 4.28e9 finite binary32 values in thorough (exhaustive for the real clause).",
          "Trusted: the SVal snapshot and its equivalence (numbers by value+exactness). Strings, non-finite reals and symbols needing bars are outside the property.",
          "DESIGN.md §5 C16"),
+ "C06": ("random datum trees x random layouts (proptest) with round-trip and metamorphic layout oracle; exhaustive short-string differential of the real lexer against an independent reference tokenizer",
+         "Exploration: thousands of datum trees over every supported token class rendered with random inter-token layout must evaluate (quoted) to the tree they came from, two layouts alike; exhaustively, every string up to length 5 (thorough 6) over a 17-character alphabet is lexed by the real lexer and by the reference tokenizer: valid strings must give the same tokens with the same end locations, and no accepted text may have a token split before a non-delimiter.",
+         "Trusted: reflex.rs (reference tokenizer written from R7RS 7.1.1 for the supported grammar, own unit tests). Known finding: #t/#f/#\\c are not delimiter-checked (pinned tests assert it).",
+         "DESIGN.md §5 C06"),
+ "C18": ("exhaustive strings over a 10-character alphabet against a reference completeness predicate (hook H2); REPL sessions over a pipe with random line splittings (metamorphic) against in-process evaluation",
+         "Exploration, exhaustive for the completeness predicate: every string up to length 7 (thorough 9: 1.1e9 strings) over ( ) \" ; LF # \\ | a SPACE; sessions through the built binary compare transcripts across line splittings and with in-process evaluation.",
+         "Trusted: reflex::completeness (token-aware open-list depth); strings whose depth goes negative are not judged.",
+         "DESIGN.md §5 C18"),
  "C07": ("exhaustive short strings + grammar-guided token soup + token mutation of real programs (proptest choice sequences, shrinking) + file faults; oracle: no panic by call site, interpreter still evaluates (quote ok)",
          "Exploration: every string up to length 4 over a 20-character alphabet, thousands of grammar-guided soups and mutations, unicode noise and unreadable files are evaluated in-process; any panic (identified by file+message) or a broken sanity form is a violation. Search, not proof: texts beyond the explored sizes are not covered.",
          "Trusted: the panic hook/catch_unwind driver; hook H1 only converts non-termination, deep recursion and huge allocations (outside the claim) into errors. Known findings: exact-integer overflow panics (one root cause).",
